@@ -5,6 +5,12 @@ ALL = ["C%02d" % i for i in range(1, 21)]
 
 CHECKS = [
     {
+        "property_id": "C17",
+        "text": "Coq theorems over an interleaving model of the pub/sub critical sections (any number of subscribers, publishers, ticks; stale object pointers): invariant, no lost event for a subscriber that subscribed before the publish and has not begun to unsubscribe, map entry removed with the last member. The real PubSub is replayed call by call against the model and stress-tested concurrently under the race detector with a delivery-within-bound oracle, panic and leak checks.",
+        "note": "PARTIAL: bounded-time delivery is checked dynamically (wall clock); the model is compared at call granularity.",
+        "technique": "Coq proof (interleaving model, inductive invariant) + call-level replay + race-detector stress",
+    },
+    {
         "property_id": "C14",
         "text": "Coq theorem: on the undo/redo stack model with the content edits of the alphabet, k undos restore exactly the content recorded k steps back and j <= k redos the content k - j steps back (any program, any depth within the capacity of 50); proved for every executor with exactly inverting reverses and instantiated. Real single-client sessions are checked against recorded contents and replayed through the model step by step; approximate kinds are checked for no-failure, clone == root and peer agreement.",
         "note": "PARTIAL: tree edits and approximate kinds are engine oracles only.",
